@@ -25,7 +25,9 @@ var freeTextFields = map[string]string{
 	"ast.MsgNode.Meaning":      "parse.parseMsg: meaning attribute",
 }
 
-var jsSanitizers = map[string]bool{"text/template.JSEscape": true, "text/template.JSEscapeString": true, "html/template.JSEscapeString": true, "strconv.Quote": true, "encoding/json.Marshal": true}
+// jsSanitizers: the encoders whose output denotes the input inside a JavaScript string literal. strconv.Quote is
+// not one (Go writes \a and \UNNNNNNNN, which JavaScript reads as the letters a and U).
+var jsSanitizers = map[string]bool{"text/template.JSEscape": true, "text/template.JSEscapeString": true, "html/template.JSEscapeString": true, "encoding/json.Marshal": true}
 
 type jsFlow struct {
 	raw  bool
